@@ -19,13 +19,18 @@ ProbeStr(mode, env, names) ==
 WellFormed(e) == \A j \in 1..Len(e.c.block) :
                     e.c.block[j].k = Spell(e.c.block[j].ktok) /\ e.c.block[j].v = Spell(e.c.block[j].vtok)
 
+\* the probe step also repeats every value string of the block: expanded AFTER the block, under the final env
+RECURSIVE Repeats(_, _, _, _)
+Repeats(mode, env, blk, j) == IF j > Len(blk) THEN "" ELSE ExpandStr(mode, env, blk[j].v) \o ";" \o Repeats(mode, env, blk, j + 1)
 EventOK(e) ==
-    LET want == FoldBlock(e.c.mode, e.c.prefer, Block(e), Env0(e)) IN
+    LET want == FoldBlock(e.c.mode, e.c.prefer, Block(e), Env0(e))
+        laterFails == ~want.err /\ \E j \in 1..Len(Block(e)) : Fails(e.c.mode, want.env, Block(e)[j].v)
+    IN
     /\ ~e.panic
-    /\ IF want.err THEN e.err                                        \* a failed expansion is reported
+    /\ IF want.err \/ laterFails THEN e.err                          \* a failed expansion is reported
        ELSE /\ ~e.err
             /\ KV(e.block) = want.block                               \* rewritten in place, definition order
-            /\ e.probe = ProbeStr(e.c.mode, want.env, e.c.probe)      \* what the rest of the pipeline saw
+            /\ e.probe = ProbeStr(e.c.mode, want.env, e.c.probe) \o "|" \o Repeats(e.c.mode, want.env, Block(e), 1)   \* what the rest of the pipeline saw
             /\ \A j \in 1..Len(e.lookups) :                           \* what was exported to / kept in the caller env
                   /\ e.lookups[j][2] = Has(e.c.mode, want.env, e.lookups[j][1])
                   /\ e.lookups[j][3] = Val(e.c.mode, want.env, e.lookups[j][1])
